@@ -62,7 +62,7 @@ def run(cmd, cwd=None, env=None, log=None, timeout=1800, check=True):
     return p
 
 
-def eval_cases(case_files, log, width=4):
+def eval_cases(case_files, log, width=5):
     """coqc every cases_<i>.v (in parallel); returns [(id, [visits, e2e, keep, fin])] parsed from
     the single `Eval vm_compute` of each file."""
     from concurrent.futures import ThreadPoolExecutor
@@ -197,9 +197,9 @@ def line(prefix, nums):
 
 
 def expected_lines(cid, row):
-    """row = [visits, e2e, keep, fin] as computed by the model (see gen_*_probes.py)."""
-    visits, e2e, keep, fin = row
-    out = [line("case %d visits" % cid, visits), line("case %d e2e" % cid, e2e)]
+    """row = [visits, e2e, keep, fin, utrace] as computed by the model (see gen_*_probes.py)."""
+    visits, e2e, keep, fin, utrace = row
+    out = [line("case %d visits" % cid, visits), line("case %d utrace" % cid, utrace), line("case %d e2e" % cid, e2e)]
     if keep:
         out.append(line("case %d keep" % cid, keep))
         out.append(line("case %d after" % cid, e2e))
